@@ -26,7 +26,7 @@ INGEST_COMPONENTS = {
     "stub": ["ClickHouse insert face (zz_verif/chfake): decodes every block, rejects non-rectangular blocks like the server, injects per-INSERT/ping/connect faults"],
     "not_simulated": ["net/http server loop and sockets (handlers are entered at router.ServeHTTP)", "QrynWriterPlugin.Initialize (dials sockets, health checks)", "process watchdog os.Exit is defused after the real wiring started it", "pprof /ingest and Elastic routes are only driven with hostile bodies (C05)"],
     "scheduler": "baton scheduler over AST-inserted yields (sim/cmd/instr): every go statement, mutex operation, blocking channel statement and receive-only select of writer/ and reader/ is a scheduling point decided from the seeded tape; function entries and loop bodies are preemption points, a seeded per-site plan turns about one visit in 5/40/400 (or none) into a scheduling point, more often inside qryn's own critical sections",
-    "runtime": "Go 1.26.8 runtime with two files replaced at build time (go -overlay, tools/mkoverlay.py): runtime.rand - map hash seeds, map iteration offsets, select seeds, math/rand auto-seed - is a sequence re-seeded by the simulator at every run start and every grant; hash keys are constants; goroutine ids are exported for the baton check",
+    "runtime": "Go 1.26.8 runtime with three files replaced at build time (go -overlay, tools/mkoverlay.py): runtime.rand - map hash seeds, map iteration offsets, select seeds, math/rand auto-seed - is a sequence re-seeded by the simulator at every run start and every grant; hash keys are constants; goroutine ids are exported for the baton check; mallocgcLarge notes the largest single allocation (the simulator's view of the allocator, C05 allocation-bomb oracle)",
 }
 
 INGEST_TRUST = ["the insert face applies a block iff Do returns nil (or the fault kind is error-after-apply)", "a block whose columns disagree on the row count is rejected",
@@ -70,7 +70,7 @@ PROPS = {
     "C05": ingest("C05", "deterministic simulation with hostile clients mixed into honest traffic on every ingest route; oracles: one response in bounded simulated time, no unrecovered panic in any goroutine, no livelock (scheduler step bound, loop-iteration bound, wall-clock watchdog), goroutine census after quiescence, lock discipline of shared Go maps",
                   "Truncated/bit-flipped/random/empty/badly-compressed/mis-typed/mis-routed bodies and extreme parameters are interleaved with honest pushes; the simrt.Go wrapper sees panics net/http would not, the census follows spawn ancestry, a goroutine that spins inside uninstrumented code is caught by the driver's wall-clock watchdog and attributed to its scenario.",
                   "input space sampled by mutation recipes; a stall inside uninstrumented code is detected by wall clock (60-90 s), not by the step counter", INGEST_RULE,
-                  ["request-answered-5xx", "request-answered-2xx"], stall=True, design_ref="DESIGN.md §4 C05"),
+                  ["request-answered-5xx", "request-answered-2xx", "largest-single-allocation-observed"], stall=True, design_ref="DESIGN.md §4 C05"),
 }
 PROPS["C05"]["known_probes"] = ["findings/C05-influx-stream-parser-spins.json", "findings/C05-gzip-body-inflated-without-bound.json"]
 PROPS_C15_PROBE = "findings/C15-in-process-log-query-over-3000-entries-splits-streams.json"
